@@ -3,7 +3,7 @@
 import json, os, subprocess
 V = os.path.dirname(os.path.dirname(os.path.abspath(__file__)))
 
-HOOK_COMMITS = ["5030260"]
+HOOK_COMMITS = ["5030260", "8d90710"]
 
 CHECKS = {
  "C08": dict(
@@ -61,6 +61,11 @@ CHECKS = {
    technique="TLA+ spec Sync.tla in concurrent mode model-checked exhaustively with TLC (all interleavings at request granularity); simulated interleavings replayed on real devices through gated SyncClients against a real server Backend",
    text="TLC explores every interleaving of the request-level steps (status, sync, scan, diff, patch, force-merge requests and the local critical sections between them) of two devices' concurrent sync calls over all histories of up to 2 edits per device, and checks ServerMonotone (the server log only changes by whole accepted patches), NoAcceptedDropped, NoLoss/NoDup and that sequential rounds after the concurrent phase converge. Interleavings of the code-faithful model are replayed on real LocalAccount devices: every request of the real AutoMerge code is parked at a gate and released in the order the behaviour dictates; a request kind the behaviour does not have next, a call that does not return, a server log or parked-device log different from the spec, or an accepted event missing from the real server log is a divergence; failures attributable to a listed deviation are reported as KNOWN-FINDING.",
    note="The server side of each request is atomic (account write lock) as in the axum handlers, mirrored by the in-process client; 2 devices; real OS-thread concurrency against the HTTP server (hook H3 recording) is not built."),
+ "C13": dict(
+   level="fault_enumeration", design="DESIGN.md 6.8, 7 (C13)",
+   technique="TLA+ spec Crash.tla (storage operations refined into persisted write steps, Crash enabled at every step boundary) model-checked with TLC; every crashed state replayed by killing a child process at the matching probe (hook H2) and re-opening the account",
+   text="Crash.tla refines create/update/delete of a secret and folder compaction into the writes the code performs on the persisted vault, the folder event log, its snapshot and the account log, for the file-system and the sqlite backend; TLC enumerates pre-history x crashing operation x step boundary and shows that the intended design (atomic log replacement, vault reconciled with the log on open) satisfies OpensAfterCrash, LogBeforeOrAfter and FolderEqReplayAfterRecover. Each crashed state of the code-faithful model becomes one process-level test: a child performs the pre-history on a real account, arms the probe of that boundary and dies by abort(); the parent re-opens through the normal path and checks that the account opens, the folder log is the one before or after the operation, reduce(log) = served = persisted and the integrity report is clean. Failures at crash points listed in known_findings.jsonl (keyed by backend, crash point and failure class) print KNOWN-FINDING; any other is a VIOLATION.",
+   note="Process death between writes only (completed writes are applied in order); torn writes inside one write() and power-loss reordering are not enumerated; operations covered: secret create/update/delete, compaction (folder create/delete, merges, key changes have probes but are not yet in Crash.tla)."),
 }
 
 NOT_YET = {
